@@ -173,12 +173,43 @@ def reply_of(e):
     return d
 
 
+class VirtualEvent:
+    """an event seen under one case of a conditional value it carries (or through one source of a merged collection)"""
+    def __init__(self, ev, pc):
+        self.ev = ev
+        self.pc = pc
+        self.node = ev.node
+        self.loops = ev.loops
+        self.seq = ev.seq
+        self.guards = ev.guards
+        self.kind = ev.kind
+        self.data = ev.data
+        self.fn = ev.fn
+
+
+def _reply_from_payload(e, payload, src, stream):
+    d = {'variant': None, 'fields': {}, 'text': payload, 'source': src, 'stream': stream}
+    if isinstance(payload, tuple) and payload and payload[0] == 'adt' and payload[1].endswith('Reply'):
+        d['variant'] = payload[2]
+        d['fields'] = dict(payload[3])
+    return d
+
+
 def replies(w, fn_filter=None):
+    """sender-directed replies; a reply whose payload is chosen by a conditional expression (`let text = match e {..}; feed_msg(text)`)
+       counts as one reply per case, each under its own path condition"""
     out = []
     for e in w.events:
         r = reply_of(e)
-        if r is not None:
+        if r is None:
+            continue
+        cs = term_cases(r['text']) if isinstance(r['text'], tuple) and r['text'][:1] == ('ite',) else None
+        if not cs:
             out.append((e, r))
+            continue
+        for c_, leaf in cs:
+            if sat(And(e.pc, c_)) is not None:
+                out.append((VirtualEvent(e, And(e.pc, c_)), _reply_from_payload(e, leaf, r['source'], r['stream'])))
     return out
 
 
@@ -368,3 +399,46 @@ def conditioned_on(prog, fn_body, inner_node, cond_node):
         if _contains_node(c, cond_node) and any(_contains_node(b, inner_node) for b in branches):
             return True
     return False
+
+
+def term_cases(t, cond=T):
+    """flatten an ite-term into [(condition, leaf)]"""
+    if isinstance(t, tuple) and t and t[0] == 'ite':
+        return term_cases(t[2], And(cond, t[1])) + term_cases(t[3], And(cond, Not(t[1])))
+    return [(cond, t)]
+
+
+def same_term(a, b, under=T):
+    """are two value terms equal on every path (modulo how the choice is written: if/else, if let, match, nested or not)?"""
+    if a == b:
+        return True
+    if a is None or b is None:
+        return False
+    for ca, la in term_cases(a):
+        for cb, lb in term_cases(b):
+            if la != lb and sat(And(under, ca, cb)) is not None:
+                return False
+    return True
+
+
+class _VData(VirtualEvent):
+    def __init__(self, ev, pc, data):
+        VirtualEvent.__init__(self, ev, pc)
+        self.data = data
+
+
+def local_muts(w):
+    """local accumulator mutations (push / push_str / += ...); an appended value chosen by a conditional expression counts as one
+       append per case, each under its own path condition"""
+    out = []
+    for e in w.events:
+        if e.kind != 'local_mut':
+            continue
+        a = e.data.get('args') or []
+        if a and isinstance(a[0], tuple) and a[0][:1] == ('ite',):
+            for c_, leaf in term_cases(a[0]):
+                if sat(And(e.pc, c_)) is not None:
+                    out.append(_VData(e, And(e.pc, c_), dict(e.data, args=[leaf] + list(a[1:]))))
+        else:
+            out.append(e)
+    return out
